@@ -88,7 +88,6 @@ Section Loop.
       exists s. split; [reflexivity|]. split; [apply hand_le_refl|].
       replace (p + 1)%Z with (Z.of_nat i) by lia. replace p with (Z.of_nat i - 1)%Z by lia.
       destruct (b_rd_field sub ic i (fk g) l sp s r); try reflexivity.
-      replace (Z.of_nat i - 1 + 1)%Z with (Z.of_nat i) by lia. reflexivity.
     - destruct k as [|k]; [lia|]. cbn [oloop]. fold nf.
       destruct (p >=? Z.of_nat nf)%Z eqn:E; [lia|]. rewrite Hf.
       destruct (p + 1 =? Z.of_nat i)%Z eqn:E2; [lia|].
@@ -108,7 +107,7 @@ Section Loop.
   (* header + dispatch of an element of data field i *)
   Lemma b_pstep_field i g pl sp s p pre rest0 :
     nth_error (flds m) i = Some g -> kind_is_data (fk g) = true -> small pl ->
-    (-1 <= p < Z.of_nat i)%Z -> walk_ok s p i ->
+    (-1 <= p < Z.of_nat i)%Z -> (ordered m = true -> walk_ok s p i) ->
     exists s1, p_vals s1 = p_vals s /\ hand_le (p_hand s) (p_hand s1) /\
       b_pstep sub m ic sp s p (mkbr pre (tlv (ftyp g) pl ++ rest0)) =
       match b_rd_field sub ic i (fk g) (N.of_nat (length pl)) sp s1
@@ -130,7 +129,8 @@ Section Loop.
     destruct (b_rd_header (ftyp g) pl pre rest0 Ht Hs) as [H1 H2]. rewrite H1. cbn [negb]. rewrite H2. cbn [negb].
     assert (Hin : (i < nf)%nat) by (unfold nf; apply nth_error_Some; congruence).
     destruct (ordered m).
-    - destruct (b_oloop_walk (Z.to_nat (Z.of_nat i - (p + 1))) (S (length (flds m))) (ftyp g) (N.of_nat (length pl)) sp s p
+    - specialize (Hw eq_refl).
+      destruct (b_oloop_walk (Z.to_nat (Z.of_nat i - (p + 1))) (S (length (flds m))) (ftyp g) (N.of_nat (length pl)) sp s p
                   (mkbr (rev (tl_enc (N.of_nat (length pl))) ++ rev (tl_enc (ftyp g)) ++ pre) (pl ++ rest0)) i g Hf)
         as [s1 [V1 [Hh O1]]]; try lia; try assumption.
       + unfold nf in Hin. lia.
